@@ -1,6 +1,7 @@
 import OZ.Lemmas.NftEnumerable
 import OZ.Lemmas.NftBits
 import OZ.Lemmas.NftLayers
+import OZ.Lemmas.NftLive
 /-
 C10 — Every NFT has exactly one owner and the enumerations mirror ownership.
 
@@ -483,6 +484,55 @@ theorem bit_layer_call_refines_set_layer (cfg : Cfg) {sB : BState} {sS : SState}
       (NftCons.apply bitOps cfg sB auth op) (NftCons.apply setOps cfg sS auth op) :=
   apply_sim bitOps_impl cfg h auth op
 
+/-! ## no spurious failures: an operation succeeds EXACTLY when the property's conditions hold -/
+
+/-- base flavour, any state whose balances count owned tokens (`Inv`, every reachable state under
+the fresh-id hypothesis): transfer / transfer_from / burn / burn_from succeed iff `MoveOK` —
+authorization, `from` is the owner, approval for a spender, and (transfers) the recipient's
+balance `checked_add`; the `checked_sub` on the sender's balance can never fire -/
+theorem base_op_succeeds_iff (cfg : Cfg) {L : List Nat} {s : Nft.State} {auth : List Nat} {op : Op}
+    (hi : Inv L s) (hm : op.moves.isSome = true) :
+    (∃ p, Nft.apply cfg s auth op = .ok p) ↔ MoveOK s.toCore s.owner auth op :=
+  Nft.apply_move_iff cfg hi.owner_pos hm
+
+/-- enumerable flavour, any state with well-formed lists (`EInv`, every reachable state):
+`remove_from_owner_enumeration`, `remove_from_global_enumeration`, `add_to_owner_enumeration`
+and the total-supply decrement never hit their error branches, so the call succeeds iff the
+same `Base`-level conditions hold -/
+theorem enumerable_op_succeeds_iff (cfg : Cfg) {s : NftEnum.State} {auth : List Nat} {op : Op}
+    (hi : NftEnum.EInv s) (hm : op.moves.isSome = true) :
+    (∃ p, NftEnum.apply cfg s auth op = .ok p) ↔ MoveOK s.toCore s.owner auth op :=
+  (NftEnum.apply_move_iff_base cfg hi hm).trans (Nft.apply_move_iff cfg hi.owner_pos hm)
+
+/-- consecutive flavour (bit level), any state related to a plain map (`GInv`, every reachable
+state): the owner scan finds the owner of every minted, unburned id, previous-token marking and
+the bucket updates never fail, so the call succeeds iff the conditions hold over the plain map -/
+theorem consecutive_op_succeeds_iff (cfg : Cfg) {s : BState} {spec : Nat → Option Nat} {auth : List Nat}
+    {op : Op} (hi : GInv bitOf WFB s spec) (hm : op.moves.isSome = true) :
+    (∃ p, NftCons.apply bitOps cfg s auth op = .ok p) ↔ MoveOK s.toCore spec auth op :=
+  NftCons.apply_move_iff bitOps_impl cfg hi hm
+
+/-- minting fails only where the code's u32 `checked_add`s say so -/
+theorem mint_succeeds_iff :
+    (∀ (s : Nft.State) (to : Nat), (∃ p, Nft.sequentialMint s to = .ok p) ↔
+      (s.nextId + 1 ≤ U32_MAX ∧ s.bal to + 1 ≤ U32_MAX)) ∧
+    (∀ (s : NftEnum.State) (to : Nat), (∃ p, NftEnum.sequentialMint s to = .ok p) ↔
+      (s.nextId + 1 ≤ U32_MAX ∧ s.bal to + 1 ≤ U32_MAX ∧ s.total + 1 ≤ U32_MAX)) ∧
+    (∀ (s : BState) (to n : Nat), WFB s.bits → ((∃ p, NftCons.batchMint bitOps s to n = .ok p) ↔
+      (1 ≤ n ∧ n ≤ MAX_TOKENS_IN_BATCH ∧ s.nextId + n ≤ U32_MAX ∧ s.bal to + n ≤ U32_MAX))) :=
+  ⟨fun _ _ => Nft.sequentialMint_iff, fun _ _ => NftEnum.sequentialMint_iff,
+   fun _ _ _ hw => NftCons.batchMint_iff bitOps_impl hw⟩
+
+/-- the invariants used above hold on every reachable state of each flavour -/
+theorem reachable_states_satisfy_invariants (cfg : Cfg) (now : Nat) (ops : List (List Nat × Op)) :
+    (FreshRun cfg (Nft.init now) ops → ∃ L, Inv L (Nft.run cfg (Nft.init now) ops)) ∧
+    (FreshRunE cfg (NftEnum.init now) ops → NftEnum.EInv (NftEnum.run cfg (NftEnum.init now) ops)) ∧
+    GInv bitOf WFB (NftCons.run bitOps cfg (NftCons.init noBuckets now) ops)
+      (specRunC bitOps cfg (NftCons.init noBuckets now) (fun _ => none) ops) :=
+  ⟨fun hf => run_inv cfg ops (init_inv now) hf,
+   fun hf => (run_einv cfg ops (NftEnum.init_einv now) (init_inv now) hf).1,
+   run_ginv bitOps_impl cfg ops ⟨CI_init, fun _ => rfl, WFB_empty⟩⟩
+
 /-! ## non-vacuity -/
 
 /-- a concrete history reaches a non-trivial state in which every hypothesis used above holds -/
@@ -507,5 +557,24 @@ example : (NftCons.ownerOf bitOps (NftCons.run bitOps ⟨1, 1000⟩ (NftCons.ini
   decide
 
 example : findBitInItem (some 0b00010100) 28 = some 29 := by decide
+
+/-- a third-party burn_from on the enumerable flavour (spender 2 approved for token 0, owner 1
+holding three tokens) succeeds and compacts the OWNER's list -/
+example : ((NftEnum.run ⟨1, 1000⟩ (NftEnum.init 10)
+    [([], .mintSeq 1), ([], .mintSeq 1), ([], .mintSeq 1), ([1], .approve 1 2 0 50),
+     ([2], .burnFrom 2 1 0)]).oTok 1 0,
+   (NftEnum.run ⟨1, 1000⟩ (NftEnum.init 10)
+    [([], .mintSeq 1), ([], .mintSeq 1), ([], .mintSeq 1), ([1], .approve 1 2 0 50),
+     ([2], .burnFrom 2 1 0)]).bal 1) = (some 2, 2) := by decide
+
+/-- the conditions of `MoveOK` on a concrete reachable state: owner 1 may transfer token 0, a
+stranger may not -/
+example : MoveOK (Nft.run ⟨1, 1000⟩ (Nft.init 10) [([], .mintSeq 1)]).toCore
+    (Nft.run ⟨1, 1000⟩ (Nft.init 10) [([], .mintSeq 1)]).owner [1] (.transfer 1 3 0) := by
+  refine ⟨by decide, by decide, by decide⟩
+
+example : ¬ MoveOK (Nft.run ⟨1, 1000⟩ (Nft.init 10) [([], .mintSeq 1)]).toCore
+    (Nft.run ⟨1, 1000⟩ (Nft.init 10) [([], .mintSeq 1)]).owner [4] (.transfer 1 3 0) := by
+  rintro ⟨h, _⟩; revert h; decide
 
 end OZ.C10
